@@ -21,6 +21,7 @@ from ast import (
     NameConstant,
     NodeTransformer,
     Num,
+    Return,
     Store,
     Str,
     Subscript,
@@ -667,7 +668,8 @@ def get_value(node):
         return node.s
     elif isinstance(node, Num):
         return node.n
-    elif isinstance(node, Constant) or hasattr(node, "value"):
+    elif isinstance(node, (Constant, Expr, Return, Assign, AnnAssign, keyword, Index)):
+        # What these hold *is* their value; the `.value` of an `Attribute` / `Subscript` is only a part of it
         value = node.value
         return NoneStr if value is None else value
     # elif isinstance(node, (Tuple, Name)):  # It used to be Index in Python < 3.9
